@@ -4,6 +4,7 @@ import (
 	"fmt"
 	"go/types"
 	"sort"
+	"strings"
 
 	"golang.org/x/tools/go/ssa"
 )
@@ -186,6 +187,20 @@ func (u *Unit) loopMods(fr *Frame, ci *cfgInfo, b *ssa.BasicBlock) []string {
 				if iv, ok := fr.vals[nx.Iter]; ok && iv.Iter != nil {
 					set[iv.Iter.Ghost] = true
 				}
+			}
+		}
+	}
+	if set["*"] {
+		// unknown effect: every heap component that exists or is part of the data snapshot
+		delete(set, "*")
+		for _, k := range u.eng.dataComps {
+			set[k] = true
+		}
+		set["BIG"] = true
+		set["alloc"] = true
+		for k := range u.init0 {
+			if strings.HasPrefix(k, "H:") || strings.HasPrefix(k, "E:") || strings.HasPrefix(k, "M") {
+				set[k] = true
 			}
 		}
 	}
